@@ -179,6 +179,7 @@ type Switch struct {
 }
 
 type C12Plan struct {
+	AltConfig string `json:"alt_config,omitempty"` // the independently built settings (config index 1): a variant with other name, description and one more file, so that cross-talk between the two shows in the bytes
 	NConfigs     int      `json:"n_configs"`
 	Clients      []Client `json:"clients"`
 	Mode         string   `json:"mode"` // baton | free
